@@ -1131,14 +1131,19 @@ static int json_object_double_to_json_string_format(struct json_object *jso, str
 		{
 			/* last useful digit, always keep 1 zero */
 			p++;
-			for (q = p; *q; q++)
+			for (q = p; *q && *q != 'e' && *q != 'E'; q++)
 			{
 				if (*q != '0')
 					p = q;
 			}
-			/* drop trailing zeroes */
+			/* drop trailing zeroes, but keep any exponent that follows them */
 			if (*p != 0)
-				*(++p) = 0;
+			{
+				++p;
+				if (p != q)
+					memmove(p, q, strlen(q) + 1);
+				p += strlen(p);
+			}
 			size = p - buf;
 		}
 	}
